@@ -170,6 +170,9 @@ impl<V: IpVersion> Socket<V> {
         loop {
             match self.socket.recv_from(&mut shared.buffer[..]) {
                 Ok((bytes_read, src)) => {
+                    #[cfg(aquatic_verif)]
+                    aquatic_common::verif::count("udp.datagram_seen");
+
                     let src_port = src.port();
                     let src = CanonicalSocketAddr::new(src);
 
